@@ -823,7 +823,8 @@ class Evaluator:
             vals = [x for c in it.const for x in c]
             if 0 < len(vals) <= MAX_CONST:
                 return join_all([cav(x) for x in vals]).replace(deps=it.deps)
-        ek = getattr(it, 'elem', None)
+        if it.meta is not None and isinstance(it.meta, tuple) and it.meta and it.meta[0] == 'range':
+            return AV(kind=frozenset(['scalar']), sign='NONNEG', deps=it.deps)
         return AV(deps=it.deps, alias=it.alias, shape=drop_leading(it.shape))
 
     def ev_unpack(self, t, ctx):
@@ -898,7 +899,8 @@ class Evaluator:
                 hash(next(iter(c)))
             except TypeError:
                 c = TOP
-        return AV(const=c if kind == 'tuple' or c is TOP else c, kind=frozenset([kind]), tup=tuple(vals) if exact else None, deps=deps, alias=alias)
+        return AV(const=c if kind == 'tuple' or c is TOP else c, kind=frozenset([kind]), tup=tuple(vals) if exact else None, deps=deps, alias=alias,
+                  meta=None if exact else ('seq_with_star', tuple(vals)))
 
     def ev_tuple(self, t, ctx):
         return self.seq(t, ctx, 'tuple')
